@@ -210,6 +210,46 @@ theorem real_cell_no_control (c : Char) (style : Text) :
     Clean (mkCell Gen.C10.displayMappings Gen.C10.wcwidth [c] style).char :=
   cell_no_control _ gen_ok.1 gen_ok.2.1 c style
 
+
+/-! ### `get_display_width` (scroll measure, since /repo 9db5f12) -/
+
+/-- no key of the table is a printable character (so the `text.isprintable()` fast path of
+    `get_display_width` cannot skip a mapped character) -/
+def keysNonPrintable (m : Table) (printable : Char → Bool) : Bool :=
+  m.all fun kv => kv.1.all fun c => !printable c
+
+theorem lookup_none_of_printable {m : Table} {printable : Char → Bool}
+    (hk : keysNonPrintable m printable = true) {c : Char} (hc : printable c = true) :
+    lookup m [c] = none := by
+  induction m with
+  | nil => rfl
+  | cons kv rest ih =>
+    obtain ⟨k, v⟩ := kv
+    simp only [keysNonPrintable, List.all_cons, Bool.and_eq_true] at hk
+    simp only [lookup]
+    split
+    · rename_i h; subst h; simp [hc] at hk
+    · exact ih hk.2
+
+/-- **The scroll code measures a character exactly as `_copy_body` draws it**: for every scalar
+    `c`, `get_display_width(c)` is the width of the cell `Char(c, style)`. -/
+theorem displayWidth_eq_cell_width {m : Table} (wc : Char → Int) {printable : Char → Bool}
+    (hk : keysNonPrintable m printable = true) (c : Char) (style : Text) :
+    displayWidth m wc printable [c] = (mkCell m wc [c] style).width := by
+  unfold displayWidth mkCell
+  cases hp : printable c with
+  | true => simp [hp, lookup_none_of_printable hk hp]
+  | false =>
+    simp only [List.all_cons, hp, List.all_nil, Bool.and_true, Bool.false_eq_true, if_false,
+      List.map_cons, List.map_nil, List.sum_cons, List.sum_nil, Nat.add_zero]
+    cases lookup m [c] <;> rfl
+
+theorem gen_keys_nonprintable :
+    keysNonPrintable Gen.C10.displayMappings Gen.C10.isPrintable = true := by decide +kernel
+
+example : displayWidth Gen.C10.displayMappings Gen.C10.wcwidth Gen.C10.isPrintable [ESC, 'a', Char.ofNat 0x9b] = 7 := by
+  decide +kernel
+
 /-! ### the escaping writer -/
 
 /-- **`Vt100_Output.write` never emits ESC**, whatever it is given. -/
